@@ -691,6 +691,11 @@ func emitCostCases(w *caseWriter, r *rng, rounds int, thorough bool) {
 		_, enc := encodeFresh(m)
 		ins := hostileInputs(r, t, enc, n)
 		ins = append(ins, enc)
+		forceListLen = 20
+		mb := mk(genOpts{canonical: true})
+		forceListLen = 0
+		_, encb := encodeFresh(mb)
+		ins = append(ins, inflatedInputs(r, mb, encb, 12)...)
 		for _, in := range ins {
 			if len(in) > 1<<16 {
 				continue
